@@ -52,6 +52,7 @@ func runC11(c *core.Ctx) {
 	saltRule(c, "C11.R7")
 	jsonTargetRule(c, "C11.R8", "service/keygen")
 	c03R8(c, "C11.R9")
+	c11Form(c, "C11.R10")
 }
 
 // errNilPred: the error result (#idx) of call is nil.
@@ -486,5 +487,121 @@ func c11R6(c *core.Ctx) {
 			}
 		}
 		c.Check(ok, rule, fnName(f)+":all bits of the flag", f.Pos(), "(p & flag) == flag", "HasPermission is not (Permissions() & flag) == flag")
+	}
+}
+
+// c11Form: the permissions of a key minted through the HTTP form come from the posted form
+// alone. keygenForm.parse assigns each of Sub/Pub/Store/Load/Presence/Extend from a value that
+// is a constant or computed from the request (req.FormValue …), never from the form object's
+// previous contents (the page handler pre-sets Sub: true for the GET view) nor from any other
+// state: "a minted key never has a permission that was not requested".
+func c11Form(c *core.Ctx, rule string) {
+	c.Rule(rule, "keygenForm.parse: every permission flag (Sub, Pub, Store, Load, Presence, Extend) is assigned, on every path to return, a value that is a constant or derived from the request only — not from the form's previous state", 6)
+	f := fn(c, rule, "internal/service/keygen", "keygenForm", "parse")
+	if f == nil {
+		return
+	}
+	var fromReq func(g *ssa.Function, v ssa.Value, d int) (bool, string)
+	fromReq = func(g *ssa.Function, v ssa.Value, d int) (bool, string) {
+		if d > 10 {
+			return false, "too deep"
+		}
+		switch x := v.(type) {
+		case *ssa.Const:
+			return true, ""
+		case *ssa.Extract:
+			return fromReq(g, x.Tuple, d+1)
+		case *ssa.Phi:
+			for _, e := range x.Edges {
+				if ok, why := fromReq(g, e, d+1); !ok {
+					return false, why
+				}
+			}
+			return true, ""
+		case *ssa.BinOp:
+			a, wa := fromReq(g, x.X, d+1)
+			b, wb := fromReq(g, x.Y, d+1)
+			if a && b {
+				return true, ""
+			}
+			return false, wa + wb
+		case *ssa.UnOp:
+			if x.Op == token.MUL {
+				return false, "read of " + eng.Describe(x) + " (state that predates the request)"
+			}
+			return fromReq(g, x.X, d+1)
+		case *ssa.Convert:
+			return fromReq(g, x.X, d+1)
+		case *ssa.Parameter:
+			if x.Type().String() == "string" {
+				return true, "" // the name of the form field
+			}
+			return false, "parameter " + x.Name() + " of " + g.Name() + " (a value handed in by the caller, e.g. the field's previous content)"
+		case *ssa.Call:
+			id := eng.FuncID(eng.CalleeObj(&x.Call))
+			if strings.HasPrefix(id, "net/http.Request.") || strings.HasPrefix(id, "strconv.") || strings.HasPrefix(id, "strings.") || strings.HasPrefix(id, "net/url.") {
+				return true, ""
+			}
+			// closure or in-package helper: every result it can return must qualify
+			var callee *ssa.Function
+			if fv, _ := eng.FuncValue(x.Call.Value); fv != nil {
+				callee = fv
+			} else if sc := x.Call.StaticCallee(); sc != nil {
+				callee = sc
+			}
+			if callee != nil && callee.Blocks != nil {
+				// arguments handed in must qualify too (they may be returned)
+				for _, a := range x.Call.Args {
+					if _, isStr := a.Type().Underlying().(*types.Basic); isStr && a.Type().String() == "string" {
+						continue
+					}
+					if ok, why := fromReq(g, a, d+1); !ok {
+						return false, "argument of " + callee.Name() + ": " + why
+					}
+				}
+				okAll := true
+				why := ""
+				eng.Instrs(callee, func(in ssa.Instruction) {
+					if ret, isRet := in.(*ssa.Return); isRet {
+						for _, r := range ret.Results {
+							if ok, w := fromReq(callee, r, d+1); !ok && okAll {
+								okAll, why = false, w
+							}
+						}
+					}
+				})
+				return okAll, why
+			}
+			return false, "result of " + id
+		}
+		return false, eng.Describe(v)
+	}
+	seen := map[string]bool{}
+	eng.Instrs(f, func(in ssa.Instruction) {
+		st, ok := in.(*ssa.Store)
+		if !ok {
+			return
+		}
+		fa, ok := st.Addr.(*ssa.FieldAddr)
+		if !ok {
+			return
+		}
+		owner, fl, base, ok := eng.FieldOf(fa)
+		if !ok || !strings.HasSuffix(owner, "keygenForm") || base != ssa.Value(f.Params[0]) {
+			return
+		}
+		switch fl {
+		case "Sub", "Pub", "Store", "Load", "Presence", "Extend":
+		default:
+			return
+		}
+		seen[fl] = true
+		okV, why := fromReq(f, st.Val, 0)
+		c.Check(okV, rule, fnName(f)+":"+fl+" from the request only", st.Pos(), "the flag is a constant or computed from the posted form", "the "+fl+" flag of the key-generation form can take a value that does not come from the request ("+why+"): a field the browser does not post (an unticked box) keeps what the form object held, e.g. the Sub: true the page handler pre-sets, and the minted key carries a permission nobody asked for")
+	})
+	for _, fl := range []string{"Sub", "Pub", "Store", "Load", "Presence", "Extend"} {
+		if !seen[fl] {
+			c.Fail(rule, fnName(f)+":"+fl+" assigned", f.Pos(), "parse no longer assigns the "+fl+" flag: it keeps its previous value")
+		}
 	}
 }
